@@ -30,7 +30,7 @@ use crate::libwallet::{
 use crate::util::logger::LoggingConfig;
 use crate::util::secp::key::{PublicKey, SecretKey};
 use crate::util::secp::pedersen::Commitment;
-use crate::util::{from_hex, static_secp_instance, Mutex, ZeroingString};
+use crate::util::{static_secp_instance, Mutex, ZeroingString};
 use crate::{ECDHPubkey, Ed25519SecretKey, Owner, Token};
 use easy_jsonrpc_mw;
 use grin_wallet_util::OnionV3Address;
@@ -2440,8 +2440,11 @@ where
 		lock_output: bool,
 		server_keys: Vec<String>,
 	) -> Result<SwapReq, Error> {
-		let commit =
-			Commitment::from_vec(from_hex(&commitment).map_err(|e| Error::CommitDeser(e))?);
+		// (the checked decoder: the raw one slices the text two bytes at a time and panics
+		// inside a multi-byte character)
+		let commit = Commitment::from_vec(
+			libwallet::dalek_ser::from_hex(&commitment).map_err(|e| Error::CommitDeser(e))?,
+		);
 
 		let secp_inst = static_secp_instance();
 		let secp = secp_inst.lock();
@@ -2450,7 +2453,7 @@ where
 		for key in server_keys {
 			keys.push(SecretKey::from_slice(
 				&secp,
-				&grin_util::from_hex(&key).map_err(|e| Error::ServerKeyDeser(e))?,
+				&libwallet::dalek_ser::from_hex(&key).map_err(|e| Error::ServerKeyDeser(e))?,
 			)?)
 		}
 
